@@ -50,7 +50,7 @@ def rule_pair(ctx, tu):
         ctx.need(len(minus) == 1 and len(plus) == 1, R, "%s: expected one -= and one += diffusion store, found %d / %d"
                  % (q, len(minus), len(plus)))
         m, p = minus[0], plus[0]
-        ctx.check(cxa.canon(m.rhs) == cxa.canon(p.rhs), R, p.node, q, "%s  /  %s" % (text(m.node)[:60], text(p.node)[:60]),
+        ctx.check(cxa.canon_inl(m.rhs, f.body) == cxa.canon_inl(p.rhs, f.body), R, p.node, q, "%s  /  %s" % (text(m.node)[:60], text(p.node)[:60]),
                   "the same amount leaves the source and enters the destination",
                   "the amount removed (%s) differs from the amount added (%s): diffusion creates or destroys molecules"
                   % (text(m.rhs), text(p.rhs)))
@@ -86,6 +86,8 @@ def rule_pair(ctx, tu):
                 if ok:
                     # the amount (if it is a table entry) is the count of the same (cell, species, direction)
                     amt = strip(m.rhs, casts=True)
+                    if amt.get("kind") == "DeclRefExpr" and uname(amt) in defs:
+                        amt = strip(defs[uname(amt)], casts=True)      # `const int nevt = mesh_nd[...]`
                     sub = subscript(amt)
                     if sub is not None:
                         ip = cxa.poly(sub[1])
